@@ -252,11 +252,84 @@ impl Span {
     }
 }
 
-#[derive(Debug, Clone, PartialEq)]
+#[derive(Debug)]
 pub(crate) enum SpanInfo {
     Prim(Span),
     Cons(Span, Box<[SpanInfo; 2]>),
     Vec(Span, Vec<SpanInfo>),
+}
+
+// The span information of a list nests one `SpanInfo::Cons` per element in
+// its second ("cdr") slot, mirroring the cons chain of the value. `Drop`,
+// `Clone` and `PartialEq` therefore walk that chain in a loop, like their
+// counterparts on `Cons`; the derived implementations recurse once per list
+// element and overflow the stack on long lists.
+impl Drop for SpanInfo {
+    fn drop(&mut self) {
+        let mut rest = match self {
+            SpanInfo::Cons(_, meta) => {
+                std::mem::replace(&mut meta[1], SpanInfo::Prim(Span::empty()))
+            }
+            _ => return,
+        };
+        // Dropping `rest` at each step only recurses into a detached cell.
+        while let SpanInfo::Cons(_, meta) = &mut rest {
+            let next = std::mem::replace(&mut meta[1], SpanInfo::Prim(Span::empty()));
+            rest = next;
+        }
+    }
+}
+
+impl Clone for SpanInfo {
+    fn clone(&self) -> Self {
+        let (span, meta) = match self {
+            SpanInfo::Prim(span) => return SpanInfo::Prim(*span),
+            SpanInfo::Vec(span, elements) => return SpanInfo::Vec(*span, elements.clone()),
+            SpanInfo::Cons(span, meta) => (span, meta),
+        };
+        let placeholder = || SpanInfo::Prim(Span::empty());
+        let mut head = SpanInfo::Cons(*span, Box::new([meta[0].clone(), placeholder()]));
+        let mut last = &mut head;
+        let mut cursor = &meta[1];
+        loop {
+            let slot = match last {
+                SpanInfo::Cons(_, meta) => &mut meta[1],
+                _ => unreachable!(),
+            };
+            match cursor {
+                SpanInfo::Cons(span, meta) => {
+                    *slot = SpanInfo::Cons(*span, Box::new([meta[0].clone(), placeholder()]));
+                    last = slot;
+                    cursor = &meta[1];
+                }
+                other => {
+                    *slot = other.clone();
+                    return head;
+                }
+            }
+        }
+    }
+}
+
+impl PartialEq for SpanInfo {
+    fn eq(&self, other: &SpanInfo) -> bool {
+        let mut lhs = self;
+        let mut rhs = other;
+        loop {
+            match (lhs, rhs) {
+                (SpanInfo::Cons(ls, lm), SpanInfo::Cons(rs, rm)) => {
+                    if ls != rs || lm[0] != rm[0] {
+                        return false;
+                    }
+                    lhs = &lm[1];
+                    rhs = &rm[1];
+                }
+                (SpanInfo::Prim(l), SpanInfo::Prim(r)) => return l == r,
+                (SpanInfo::Vec(ls, le), SpanInfo::Vec(rs, re)) => return ls == rs && le == re,
+                _ => return false,
+            }
+        }
+    }
 }
 
 impl SpanInfo {
